@@ -168,6 +168,12 @@ def families():
                                   (2, 2): um(dict[str, SM.Snapshot], lambda: {"k": SM.snap2()})},
         "inserting_mapping_input": {(1, 1): um(SM.Search, lambda: SM.params()), (1, 2): ma(dict[str, str], lambda: SM.params()),
                                     (2, 1): um(SM.Paging, lambda: SM.params2()), (2, 2): (lambda x: typelib.encode(x, t=dict[str, str]), lambda: SM.params2())},
+        # annotations written inline at the call site: a new annotation object per call, dead when the call returns (what a later,
+        # different annotation at the same address is served is the subject)
+        "throwaway_annotations": {(1, 1): (lambda x: typelib.unmarshal(eval("list[int]"), x), lambda: ["1", "2"]),
+                                  (1, 2): (lambda x: typelib.unmarshal(eval("dict[str, float]"), x), lambda: {"a": "1"}),
+                                  (2, 1): (lambda x: typelib.marshal(x, t=eval("tuple[int, str]")), lambda: (1, "one")),
+                                  (2, 2): (lambda x: typelib.marshal(x, t=eval("dict[str, int]")), lambda: {"a": 1, "b": 2})},
         # a rejection must stay a rejection: the same invalid input again, after valid ones, nested
         "typeddict_missing_key": {(1, 1): um(I.TD, lambda: {"y": "s"}), (1, 2): um(I.TD, lambda: {"x": "1", "y": "s"}),
                                   (2, 1): um(list[I.TD], lambda: [{"y": "t"}]), (2, 2): um(dict[str, I.TD], lambda: {"k": {"x": "2"}})},
@@ -358,4 +364,4 @@ class ExecZygote:
 FAMILY_NAMES = ["union_unmarshal", "union_marshal", "union_in_list", "instants", "instants_in_list", "text_carriers",
                 "bare_containers", "numbers", "same_name_classes", "string_refs", "recursive", "codec_configs", "dateparse",
                 "build_order", "build_order_nt", "same_routine_inputs", "same_routine_inputs2", "private_fields", "nested_text",
-                "nested_text2", "duration_classes", "temporal_text_targets", "equal_keys", "same_origin_kinds", "same_origin_kinds2", "value_classes", "retry_same_object", "subclass_after_base", "frozen_instance_input", "typeddict_missing_key", "typeddict_key_order", "inserting_mapping_input"]
+                "nested_text2", "duration_classes", "temporal_text_targets", "equal_keys", "same_origin_kinds", "same_origin_kinds2", "value_classes", "retry_same_object", "subclass_after_base", "frozen_instance_input", "typeddict_missing_key", "typeddict_key_order", "inserting_mapping_input", "throwaway_annotations"]
